@@ -543,6 +543,10 @@ def opaque_token(x):
     return f'{type(x).__name__}:{sorted(map(repr, x))}'
   if callable(x):
     return 'callable:' + callable_name(x)
+  if isinstance(x, slice):
+    return f'slice:{safe_repr(x.start)}:{safe_repr(x.stop)}:{safe_repr(x.step)}'
+  if isinstance(x, range):
+    return f'range:{x.start}:{x.stop}:{x.step}'
   return f'{type(x).__name__}'
 
 
